@@ -34,10 +34,11 @@ ASSUMPTIONS = ["LONG (3-level) notation; filters restricted to level-3 patterns 
                "a callback unregistered during a dispatch before its turn, or registered during a dispatch, is unjudged "
                "for that telegram; one that stays registered throughout must be called exactly once"]
 
-GAS = [W.ga(1, 0, 1), W.ga(1, 0, 2), W.ga(1, 1, 1), W.ga(2, 3, 10), W.ga(2, 3, 200), W.ga(5, 7, 255)]
+GAS = [W.ga(1, 0, 1), W.ga(1, 0, 2), W.ga(1, 1, 1), W.ga(2, 3, 10), W.ga(2, 3, 200), W.ga(5, 7, 255),
+       W.ga(17, 0, 1), W.ga(18, 3, 10), W.ga(31, 7, 255), W.ga(16, 0, 0)]   # main groups 16..31 are legal too
 INTERNALS = ["i-abc", "i-abd", "i-xyz"]
 LEVEL_PARTS = {
-    "main": ["*", "1", "2", "1-2", "1,5", "-1", "2-", "0"],
+    "main": ["*", "1", "2", "1-2", "1,5", "-1", "2-", "0", "17", "16-", "-15", "2,18", "31"],
     "middle": ["*", "0", "1", "3", "0-1", "3,7", "-3", "1-"],
     "sub": ["*", "1", "2", "10", "1-2", "10-200", "200-", "-10", "1,255", "2,10-20"],
 }
